@@ -19,7 +19,7 @@ def depslib_trusted():
             "Model/DepsReplay.guess is untrusted: acceptance re-runs Model/Deps.run on the guessed schedule"]
 
 
-def contention(ctx, parts=("contend", "generic", "names", "invalid", "custom", "verbose", "wide"), rounds=None):
+def contention(ctx, parts=("contend", "generic", "names", "invalid", "custom", "verbose", "wide", "escaped"), rounds=None):
     """C01 under contention: a lost update in the registry only shows when several goroutines miss
     the same fresh key at the same instant (oracle only; the theorem side is C01_at_most_once)."""
     binp = os.path.join(ctx.tmp, "bin_depsrun")
@@ -60,6 +60,10 @@ def contention(ctx, parts=("contend", "generic", "names", "invalid", "custom", "
         if late != 1 or early != 0:
             ctx.violation({"kind": "oracle", "oracle": "C01", "clauses": ["MAGEFILE_VERBOSE=1 exported after a first dependency ran unverbosely (what a compiled magefile given -v does after init()): 'Running dependency:' printed %d times for the dependency executed afterwards (must be 1) and %d times for the one that had already run (must be 0)" % (late, early)]},
                           case={"call": "unset MAGEFILE_VERBOSE; mg.Deps(VpEarly); MAGEFILE_VERBOSE=1; mg.Deps(VpLate, VpEarly)", "stderr": seg[-600:]})
+    ctx.coverage["escaped_names_probe"] = r.get("escaped_names")
+    if "escaped" in parts and r.get("escaped_names") and r["escaped_names"] != [1, 1, 1, 1]:
+        ctx.violation({"kind": "oracle", "oracle": "C01/C14", "clauses": ["function Build/Deploy of package .../tasks.V2 and method Build/Deploy of type V2 in package .../tasks (runtime names differ only by the escaped dot) ran %s times, each must run exactly once" % r["escaped_names"]]},
+                      case={"call": "mg.Deps(tasks.V2.Build, v2.Build); mg.SerialDeps(mg.F(v2.Deploy, \"prod\"), mg.F(tasks.V2.Deploy, \"prod\"))"})
     ctx.coverage["wide_calls_probe"] = r.get("wide")
     if "wide" in parts and r.get("wide"):
         ctx.violation({"kind": "oracle", "oracle": "C02", "clauses": ["one call naming many dependencies: %s" % "; ".join(r["wide"][:4])]},
